@@ -43,6 +43,8 @@ static struct th {
   void* (*fn)(void*);
   void* arg;
   uint32_t nop, run, spin_rounds, newaddr, bloom_reset;
+  uint64_t rset[64], wset[64];  // granules read since the last yield-return / snapshot taken when yielding (4096-bit Bloom)
+  int woken, wait_any;
   uint64_t bloom[1024];  // addresses touched since the last progress (65536 bits)
   uint64_t seen_epoch;
   uintptr_t sp;
@@ -120,8 +122,10 @@ void fmc_count(uint64_t n) { TR->user_cases += n; }
 void fmc_add_steps(uint64_t n) { TR->steps += n; }
 
 // ---------------------------------------------------------------- TSO overlay
+static void progress_at(void* addr, int len);
 static void sb_flush(struct th* t) {
-  // owner is running: memory already holds its values
+  // owner is running: memory already holds its values; they become visible to the others now
+  for (int i = 0; i < t->sb.n; i++) progress_at(t->sb.e[i].addr, t->sb.e[i].sz);
   t->sb.n = 0;
   t->sb.pending = 0;
 }
@@ -145,7 +149,27 @@ static void sb_show(struct th* t) {  // owner gets the cpu: it sees its own buff
 }
 static void capture_pending(struct th* t);
 static int noprogress_rounds;
-static void progress(void) {
+static inline uint32_t rbit(void* a) { return (uint32_t)((((uintptr_t)a >> 3) * 0x9E3779B97F4A7C15ull) >> 52); }
+// a value-changing write to `addr` (or, with addr==0, an event nobody can attribute to an address):
+// wakes the yielded threads that read that location during the iteration after which they yielded
+static void wake_readers(void* addr, int len) {
+  for (int k = 0; k < nth; k++) {
+    if (k == me || !T[k].alive || !T[k].yielded || T[k].woken) continue;
+    if (!addr) { T[k].woken = 1; continue; }
+    for (int off = 0; off < (len > 0 ? len : 1); off += 8) {
+      uint32_t b = rbit((char*)addr + off);
+      if (T[k].wset[b >> 6] & (1ull << (b & 63))) { T[k].woken = 1; break; }
+    }
+    if (len > 8) {
+      uint32_t b = rbit((char*)addr + len - 1);
+      if (T[k].wset[b >> 6] & (1ull << (b & 63))) T[k].woken = 1;
+    }
+  }
+}
+static void progress_at(void* addr, int len);
+static void progress(void) { progress_at(0, 0); }
+static void progress_at(void* addr, int len) {
+  wake_readers(addr, len);
   noprogress_rounds = 0;
   progress_epoch++;
   T[me].nop = 0;
@@ -174,7 +198,7 @@ static void capture_pending(struct th* t) {
   if (t->pw_addr) {
     if (memcmp(t->pw_addr, t->pw_old, t->pw_sz) != 0) {
       if (fmc_tracing > 1) fmc_rawlog("[%lu] T%d progress (plain write %p)\n", (unsigned long)TR->steps, me, t->pw_addr);
-      progress();
+      progress_at(t->pw_addr, t->pw_sz);
     }
     t->pw_addr = 0;
   }
@@ -319,7 +343,9 @@ static int only_alive(int t) {
 static int eligible_other(int t) {
   if (!T[t].alive) return 0;
   if (T[t].joining) return only_alive(t);  // blocked in fmc_wait_threads until everybody else exited
-  return !T[t].yielded || T[t].yield_epoch < progress_epoch;
+  if (!T[t].yielded) return 1;
+  if (SH->precise && !T[t].wait_any) return T[t].woken;
+  return T[t].yield_epoch < progress_epoch;
 }
 static int others_alive(void) {
   for (int t = 0; t < nth; t++)
@@ -379,6 +405,12 @@ static void do_yield(int kind) {  // 0 polite (spinning), 1 idle (would block), 
     t->spin_rounds = 0;
     t->seen_epoch = progress_epoch;
   }
+  // what this thread read during the iteration that ends here decides what can wake it up again;
+  // harness-level yields (kind 3) wait on ghost state and forced yields (kind 2) wait for nothing
+  t->wait_any = kind >= 2;
+  memcpy(t->wset, t->rset, sizeof t->wset);
+  memset(t->rset, 0, sizeof t->rset);
+  t->woken = 0;
   if (in_round && me != round_master && idle) {
     t->yielded = 1;
     t->idle = 1;
@@ -394,7 +426,7 @@ static void do_yield(int kind) {  // 0 polite (spinning), 1 idle (would block), 
   }
   t->yielded = 1;
   t->idle = idle;
-  t->yield_epoch = progress_epoch;
+  t->yield_epoch = forced ? 0 : progress_epoch;
   unsigned mask = 0;
   for (int k = 0; k < nth; k++)
     if (k != me && eligible_other(k)) mask |= 1u << k;
@@ -470,7 +502,13 @@ static void sched_point(void* addr, int sz, int w, int always, void* pc, int flu
       shared_loc = 0;  // a single kernel thread: nothing to conflict with
     }
   }
+  if (addr) {
+    uint32_t b_ = rbit(addr);
+    t->rset[b_ >> 6] |= 1ull << (b_ & 63);
+    if (sz > 8) { b_ = rbit((char*)addr + 8); t->rset[b_ >> 6] |= 1ull << (b_ & 63); }
+  }
   if (fmc_tracing > 1) fmc_rawlog("[%lu] T%d %s %p sz=%d pc=%p\n", (unsigned long)TR->steps, me, w ? "W" : "R", addr, sz, pc);
+  if (always == 2) always = SH->atomicfilter ? 0 : 1;
   int in_S = always || !fmc_use_site_filter || SH->nofilter || SH->site_shared[sh];
   // a buffered store may be committed early at any later callback of its owner; it is
   // committed at the latest when the owner is about to execute a flushing operation,
@@ -554,7 +592,7 @@ void fmc_yield(void) {
   if (!fmc_is_exploring) return;
   if (++TR->steps > fmc_horizon) fmc_finish(V_HORIZON, "horizon");
   T[me].sp = (uintptr_t)__builtin_frame_address(0);
-  do_yield(0);
+  do_yield(3);
 }
 void fmc_fence(void) { sched_point(0, 0, 0, 1, __builtin_return_address(0), 1, 0); }
 void fmc_rmw16(volatile void* a) {
@@ -806,7 +844,7 @@ void __tsan_set_fiber_name(void* f, const char* n) {}
 static void range_point(void* a, unsigned long n, int w, void* pc) {
   if (!fmc_is_exploring) return;
   sched_point(a, n > 16 ? 16 : (int)n, w, 0, pc, w, 0);
-  if (w) progress();
+  if (w) progress_at(a, (int)(n > 4096 ? 4096 : n));
   if (n > 16 && (fmc_omask & FMC_O_HEAP)) {
     int s = fmc_shadow_state(a, n);
     if (s > 0) {
@@ -845,72 +883,72 @@ static int atomic_store_delay(void* a, int sz, int mo, uint32_t sh, const void* 
 }
 #define AT(bits, Ty)                                                                                              \
   Ty __tsan_atomic##bits##_load(const volatile Ty* a, int mo) {                                                   \
-    sched_point((void*)a, bits / 8, 0, 1, RA, 0, 0);                                                              \
+    sched_point((void*)a, bits / 8, 0, 2, RA, 0, 0);                                                              \
     Ty r_ = __atomic_load_n(a, __ATOMIC_SEQ_CST);                                                                 \
     wl('L', a, bits / 8, r_, r_);                                                                                 \
     return r_;                                                                                                    \
   }                                                                                                               \
   void __tsan_atomic##bits##_store(volatile Ty* a, Ty v, int mo) {                                                \
-    sched_point((void*)a, bits / 8, 1, 1, RA, mo == SEQ, 0);                                                      \
+    sched_point((void*)a, bits / 8, 1, 2, RA, mo == SEQ, 0);                                                      \
     Ty old = *a;                                                                                                  \
-    if (old != v && fmc_is_exploring) progress();                                                                 \
+    if (old != v && fmc_is_exploring) progress_at((void*)a, bits / 8);                                                                \
     atomic_store_delay((void*)a, bits / 8, mo, sitehash(RA), &v);                                                 \
     wl('S', a, bits / 8, old, v);                                                                                 \
     __atomic_store_n(a, v, __ATOMIC_SEQ_CST);                                                                     \
   }                                                                                                               \
   Ty __tsan_atomic##bits##_exchange(volatile Ty* a, Ty v, int mo) {                                               \
-    sched_point((void*)a, bits / 8, 1, 1, RA, 1, 0);                                                              \
-    if (*a != v && fmc_is_exploring) progress();                                                                  \
+    sched_point((void*)a, bits / 8, 1, 2, RA, 1, 0);                                                              \
+    if (*a != v && fmc_is_exploring) progress_at((void*)a, bits / 8);                                                                 \
     wl('X', a, bits / 8, *a, v);                                                                                  \
     return __atomic_exchange_n(a, v, __ATOMIC_SEQ_CST);                                                           \
   }                                                                                                               \
   Ty __tsan_atomic##bits##_fetch_add(volatile Ty* a, Ty v, int mo) {                                              \
-    sched_point((void*)a, bits / 8, 1, 1, RA, 1, 0);                                                              \
-    if (v && fmc_is_exploring) progress();                                                                        \
+    sched_point((void*)a, bits / 8, 1, 2, RA, 1, 0);                                                              \
+    if (v && fmc_is_exploring) progress_at((void*)a, bits / 8);                                                                       \
     wl('A', a, bits / 8, *a, (Ty)(*a + v));                                                                       \
     return __atomic_fetch_add(a, v, __ATOMIC_SEQ_CST);                                                            \
   }                                                                                                               \
   Ty __tsan_atomic##bits##_fetch_sub(volatile Ty* a, Ty v, int mo) {                                              \
-    sched_point((void*)a, bits / 8, 1, 1, RA, 1, 0);                                                              \
-    if (v && fmc_is_exploring) progress();                                                                        \
+    sched_point((void*)a, bits / 8, 1, 2, RA, 1, 0);                                                              \
+    if (v && fmc_is_exploring) progress_at((void*)a, bits / 8);                                                                       \
     wl('A', a, bits / 8, *a, (Ty)(*a - v));                                                                       \
     return __atomic_fetch_sub(a, v, __ATOMIC_SEQ_CST);                                                            \
   }                                                                                                               \
   Ty __tsan_atomic##bits##_fetch_and(volatile Ty* a, Ty v, int mo) {                                              \
-    sched_point((void*)a, bits / 8, 1, 1, RA, 1, 0);                                                              \
-    if ((Ty)(*a & v) != *a && fmc_is_exploring) progress();                                                       \
+    sched_point((void*)a, bits / 8, 1, 2, RA, 1, 0);                                                              \
+    if ((Ty)(*a & v) != *a && fmc_is_exploring) progress_at((void*)a, bits / 8);                                                      \
     return __atomic_fetch_and(a, v, __ATOMIC_SEQ_CST);                                                            \
   }                                                                                                               \
   Ty __tsan_atomic##bits##_fetch_or(volatile Ty* a, Ty v, int mo) {                                               \
-    sched_point((void*)a, bits / 8, 1, 1, RA, 1, 0);                                                              \
-    if ((Ty)(*a | v) != *a && fmc_is_exploring) progress();                                                       \
+    sched_point((void*)a, bits / 8, 1, 2, RA, 1, 0);                                                              \
+    if ((Ty)(*a | v) != *a && fmc_is_exploring) progress_at((void*)a, bits / 8);                                                      \
     return __atomic_fetch_or(a, v, __ATOMIC_SEQ_CST);                                                             \
   }                                                                                                               \
   Ty __tsan_atomic##bits##_fetch_xor(volatile Ty* a, Ty v, int mo) {                                              \
-    sched_point((void*)a, bits / 8, 1, 1, RA, 1, 0);                                                              \
-    if (v && fmc_is_exploring) progress();                                                                        \
+    sched_point((void*)a, bits / 8, 1, 2, RA, 1, 0);                                                              \
+    if (v && fmc_is_exploring) progress_at((void*)a, bits / 8);                                                                       \
     return __atomic_fetch_xor(a, v, __ATOMIC_SEQ_CST);                                                            \
   }                                                                                                               \
   Ty __tsan_atomic##bits##_fetch_nand(volatile Ty* a, Ty v, int mo) {                                             \
-    sched_point((void*)a, bits / 8, 1, 1, RA, 1, 0);                                                              \
-    if (fmc_is_exploring) progress();                                                                             \
+    sched_point((void*)a, bits / 8, 1, 2, RA, 1, 0);                                                              \
+    if (fmc_is_exploring) progress_at((void*)a, bits / 8);                                                                            \
     return __atomic_fetch_nand(a, v, __ATOMIC_SEQ_CST);                                                           \
   }                                                                                                               \
   Ty __tsan_atomic##bits##_compare_exchange_val(volatile Ty* a, Ty c, Ty v, int mo, int fmo) {                    \
-    sched_point((void*)a, bits / 8, 1, 1, RA, 1, 0);                                                              \
-    if (*a == c && c != v && fmc_is_exploring) progress();                                                        \
+    sched_point((void*)a, bits / 8, 1, 2, RA, 1, 0);                                                              \
+    if (*a == c && c != v && fmc_is_exploring) progress_at((void*)a, bits / 8);                                                       \
     __atomic_compare_exchange_n(a, &c, v, 0, __ATOMIC_SEQ_CST, __ATOMIC_SEQ_CST);                                 \
     return c;                                                                                                     \
   }                                                                                                               \
   int __tsan_atomic##bits##_compare_exchange_strong(volatile Ty* a, Ty* c, Ty v, int mo, int fmo) {               \
-    sched_point((void*)a, bits / 8, 1, 1, RA, 1, 0);                                                              \
-    if (*a == *c && *c != v && fmc_is_exploring) progress();                                                      \
+    sched_point((void*)a, bits / 8, 1, 2, RA, 1, 0);                                                              \
+    if (*a == *c && *c != v && fmc_is_exploring) progress_at((void*)a, bits / 8);                                                     \
     wl(*a == *c ? 'C' : 'c', a, bits / 8, *a, v);                                                                 \
     return __atomic_compare_exchange_n(a, c, v, 0, __ATOMIC_SEQ_CST, __ATOMIC_SEQ_CST);                           \
   }                                                                                                               \
   int __tsan_atomic##bits##_compare_exchange_weak(volatile Ty* a, Ty* c, Ty v, int mo, int fmo) {                 \
-    sched_point((void*)a, bits / 8, 1, 1, RA, 1, 0);                                                              \
-    if (*a == *c && *c != v && fmc_is_exploring) progress();                                                      \
+    sched_point((void*)a, bits / 8, 1, 2, RA, 1, 0);                                                              \
+    if (*a == *c && *c != v && fmc_is_exploring) progress_at((void*)a, bits / 8);                                                     \
     wl(*a == *c ? 'C' : 'c', a, bits / 8, *a, v);                                                                 \
     return __atomic_compare_exchange_n(a, c, v, 0, __ATOMIC_SEQ_CST, __ATOMIC_SEQ_CST);                           \
   }
